@@ -141,3 +141,6 @@ func VerifDensePoolLen() int { return len(densePool) }
 func VerifFlatIterState(it *FlatIterator) (track []int, next, last int, done, reverse bool) {
 	return cpInts(it.track), it.nextIndex, it.lastIndex, it.done, it.reverse
 }
+
+// VerifDivmod exposes divmod (assembly by default, pure Go under -tags noasm).
+func VerifDivmod(a, b int) (int, int) { return divmod(a, b) }
